@@ -301,6 +301,21 @@ def make_case(fmt: str, kind: str, problem: str, place: str, variant: int, layou
     return case
 
 
+def header_on_opening_line_case(fmt: str) -> Dict[str, Any]:
+    """Corpus case: a google section header as the text on the opening line.  inspect.cleandoc dedents the
+    continuation lines by THEIR common indent, so no indented block is left under the header, napoleon sees plain text and
+    there is no parameter field: pydoctor must report NOTHING here (in particular no 'Documented parameter' warning)."""
+    assert fmt == 'google'
+    body = ['Args:', '        a: the a.', '        nosuchparam: nope']
+    value = '\n'.join(body + ['    '])
+    case = {'fmt': fmt, 'kind': 'function', 'problem': 'none', 'place': '-', 'variant': 0, 'k': 0, 'quiet': True,
+            'moddoc': True, 'prelude': [], 'value': value, 'pidx': -1, 'first_rel': 0, 'prob_rel': 0, 'msg': '',
+            'target': 'mod.f', 'layout': {'opening_text': True, 'code_indent': 4, 'ci': 4, 'header_on_opening_line': True}}
+    src, truth = assemble(case, 0)
+    case['sources'], case['truth'] = [src], [truth]
+    return case
+
+
 LAYOUT_BELOW = {'opening_text': False, 'first_ws': '', 'leading': [], 'ci_delta': 0, 'closing_own_line': True, 'seps': ''}
 LAYOUT_OPEN = {'opening_text': True, 'ci_delta': 0, 'closing_own_line': True, 'seps': ''}
 
@@ -964,6 +979,8 @@ class Check(PropertyCheck):
                 for kind in KINDS:
                     v += 1
                     cases.append(make_case(fmt, kind, 'none', '-', v, LAYOUT_BELOW, k=0))
+            # a section header on the opening line is not a section (cleandoc): nothing may be reported
+            cases.append(header_on_opening_line_case('google'))   # (numpy bodies are not indented under the header: still a section)
             # the known layout, every format
             for fmt in FMTS:
                 lay = dict(LAYOUT_BELOW, leading=['      '], ci_delta=-2)
